@@ -732,10 +732,13 @@ func (c *checker) handleViolations(bin string, br *batchResult, extraEnv []strin
 	}
 	reported := 0
 	o := genOptsFor(c.tier, br.domain, runtime.GOARCH)
-	o.churnBias = false
+	o.churnBias, o.growBias = false, false
 	for _, e := range extraEnv {
 		if e == "VERIF_POINTS=1" {
 			o.churnBias = true
+		}
+		if strings.HasPrefix(e, "VERIF_GCPERCENT=") {
+			o.growBias = true
 		}
 	}
 	for _, cd := range cands {
